@@ -145,3 +145,16 @@ void h_main_totals(void) {
         VREACH("other");
     }
 }
+
+/* a relocation-info record that is cut short: ReadRelocInfo yields no table; PLIST must report a format error and
+ * never touch the missing table (CBMC's pointer checks in ProcessSingle are the obligation) */
+void h_ProcessSingle_reloc_truncated(void) {
+    char name[2]; long cut;
+    gf_reset(); mk_file(0); gf[0].pos = 0; gf_cell_mode = 0;
+    msg_txt[0] = 'm'; msg_txt[1] = 0; name[0] = 'f'; name[1] = 0; QuietMode = True; NumFiles = 1; verif_errno = 0;
+    gf_script_i = 0; gf_script[0] = FileMagic; gf_script[1] = FileHeaderRelocInfo; gf_script[2] = 1; gf_script[3] = 0; gf_script[4] = 4; gf_script_n = 5;
+    VND(cut, long); VASSUME(cut >= 3 && cut < 3 + 12 + 16);     /* the file ends somewhere inside the counts or the first entry */
+    gf[0].len = cut;
+    ProcessSingle(name);
+    VPOST(0, "C03: a truncated relocation-info record is rejected as a format error (PLIST does not go on)");
+}
